@@ -7,7 +7,10 @@
 (*                    SyncBlockHeader / ProcessHeader                      *)
 (* Both end in signature.VerifyMultiSignature (SigBase!VerifyMulti).       *)
 (*                                                                         *)
-(* Consensus peers ("members") are the keys 1..N, key N+1 is an outsider.  *)
+(* The stored consensus peer set is part of the state: `peers` is its size, *)
+(* the consensus peers ("members") are the keys 1..peers, key peers+1 is an *)
+(* outsider.  One configuration checks every size in PeerSetSizes (C32 and  *)
+(* the general header enumeration: the single size N).                      *)
 (* A header carries a bookkeeper list bk (any keys, duplicates possible)   *)
 (* and a signature list sigs (SigBase signature symbols relative to the    *)
 (* header hash).                                                           *)
@@ -21,15 +24,18 @@
 (*                       (code: C + 1)                                     *)
 (*   SyncMinListLen      minimal bookkeeper list length header_sync takes  *)
 (*                       (code: 3*len >= 2*N)                              *)
+(*   SyncMinListTab      the same per peer-set size p: {p*100 + len}       *)
 (*   SyncSigsTab         how many leading signatures header_sync verifies  *)
-(*                       for a bookkeeper list of length L (code: L, all   *)
-(*                       of them), as the set of the probed L*100 + m      *)
+(*                       for p peers and a bookkeeper list of length L     *)
+(*                       (code: L, all of them): {p*10000 + L*100 + m}     *)
 (* Named deviation: MaskByPosition (see SigBase!VerifyMulti); repaired by   *)
 (* fix commit 900ecb87, the checks run with it FALSE.                       *)
 (***************************************************************************)
 EXTENDS SigBase
 
-CONSTANTS N, C,
+CONSTANTS N,                \* the (largest) size of the stored peer set
+          PeerSetSizes,     \* the sizes of the stored peer set this configuration covers, all <= N
+          C,
           LedgerSigsVerified, LedgerMinDistinct, SyncMinListLen,
           MaskByPosition,
           Which,            \* "ledger" | "sync": which entry point this configuration exercises
@@ -38,25 +44,32 @@ CONSTANTS N, C,
           SigSlack,         \* sync: signature lists of length |bk|-1 .. |bk|+SigSlack (shorter ones are all alike)
           AlignOpts,        \* 0: any signature symbol at any position; 2/3: one signature per bookkeeper position,
                             \*    each the listed key's own, the first listed key's (replay) or (3) garbage
-          SyncSigsTab,      \* sync: {L*100 + m}: a list of length L has its m leading signatures verified (probed);
-                            \*    lengths that are not in the table: all L signatures (the design)
+          SyncMinListTab,   \* sync: {p*100 + len}: with p peers stored the shortest list taken has length len (probed);
+                            \*    sizes that are not in the table: SyncMinListLen
+          SyncSigsTab,      \* sync: {p*10000 + L*100 + m}: with p peers stored a list of length L has its m leading
+                            \*    signatures verified (probed); (p, L) not in the table: all L signatures (the design)
           QuorumPads,       \* quorum mode (below): the kinds of padding signatures; {} switches the mode off
-          QuorumMinBk, QuorumMaxBk,   \* quorum mode: lengths of the bookkeeper list (never more than N)
+          QuorumBelow,      \* quorum mode: bookkeeper lists of length two thirds of the peers - QuorumBelow .. peers
           QuorumShort       \* quorum mode: padded signature lists of length |bk|-QuorumShort .. |bk|+1
 
-VARIABLES hdr, phase, accepted, act
-vars == <<hdr, phase, accepted, act>>
-State == [hdr |-> hdr, phase |-> phase, accepted |-> accepted]
+ASSUME PeerSetSizes # {} /\ \A p \in PeerSetSizes : p \in 1..N
 
-Members == 1..N
-Outsider == N + 1
+VARIABLES hdr, phase, accepted, act,
+          peers             \* the size of the stored consensus peer set (header_sync: ConsensusPeers.PeerMap of the
+                            \* governing key height; ledger: the chain configuration in force)
+vars == <<hdr, phase, accepted, act, peers>>
+State == [hdr |-> hdr, phase |-> phase, accepted |-> accepted, peers |-> peers]
+
+Members == 1..peers
+Outsider == peers + 1
+TwoThirds(n) == (2 * n + 2) \div 3         \* the least m with 3*m >= 2*n
 NoHdr == [bk |-> <<>>, sigs |-> <<>>]
 
 \* Headers are enumerated up to renaming of the members: members appear in bk in order of first occurrence
 \* (1, then 2, ...); signatures are by listed members, the next unlisted member, the outsider, or are garbage / stale.
 MaxMemberIn(s) == LET ms == {s[i] : i \in DOMAIN s} \cap Members IN IF ms = {} THEN 0 ELSE CHOOSE x \in ms : \A y \in ms : y <= x
 Canonical(bk) == \A i \in DOMAIN bk : bk[i] \in Members => bk[i] <= MaxMemberIn(SubSeq(bk, 1, i - 1)) + 1
-SigSyms(bk) == {Good(k) : k \in (1..(IF MaxMemberIn(bk) < N THEN MaxMemberIn(bk) + 1 ELSE N)) \cup {Outsider}}
+SigSyms(bk) == {Good(k) : k \in (1..(IF MaxMemberIn(bk) < peers THEN MaxMemberIn(bk) + 1 ELSE peers)) \cup {Outsider}}
                \cup {Garbage, Stale(1)}
 
 Outsiders(bk) == Cardinality({i \in DOMAIN bk : bk[i] = Outsider})
@@ -68,7 +81,8 @@ AlignedSig(bk, i, o) == IF o = 1 THEN Good(bk[i]) ELSE IF o = 2 THEN Good(bk[1])
 \* LISTED bookkeepers: the header lists L distinct members; v of them (the first or the last v listed) have signed;
 \* the signature list is filled up with np padding signatures that add no listed signer (garbage, a signature over
 \* another message, a second signature of a peer that signed already, of an outsider) or none that is listed (a
-\* member that is not in the list), before ("head") or after ("tail") the valid ones.  Enumerated for every L, v.
+\* member that is not in the list), before ("head") or after ("tail") the valid ones.  Enumerated for every L, v
+\* and - the peer-set size being part of the state - every size in PeerSetSizes (all residues modulo 3).
 QuorumHdr(L, v, who, kind, np, place) ==
     LET first == IF who = "first" THEN 1 ELSE L - v + 1
         valid == [i \in 1..v |-> Good(first + i - 1)]
@@ -82,20 +96,21 @@ QuorumHdr(L, v, who, kind, np, place) ==
 QuorumHdrs ==
     {QuorumHdr(L, v, who, kind, np, place) :
         <<L, v, who, kind, np, place>> \in
-            {t \in (QuorumMinBk..QuorumMaxBk) \X (0..QuorumMaxBk) \X {"first", "last"} \X QuorumPads
-                    \X (0..(QuorumMaxBk + 1)) \X {"tail", "head"} :
-                /\ t[1] <= N /\ t[2] <= t[1]
+            {t \in (0..peers) \X (0..peers) \X {"first", "last"} \X QuorumPads \X (0..(peers + 1)) \X {"tail", "head"} :
+                /\ t[1] + QuorumBelow >= TwoThirds(peers) /\ t[2] <= t[1]
                 /\ t[2] + t[5] <= t[1] + 1                                  \* at most one surplus signature
                 /\ (t[5] = 0 \/ t[2] + t[5] + QuorumShort >= t[1])          \* no padding, or (nearly) up to the list length
                 /\ (t[4] = "repeat" => t[2] >= 1)
-                /\ (t[4] = "unlisted" => t[1] < N)}}
+                /\ (t[4] = "unlisted" => t[1] < peers)}}
 
 -----------------------------------------------------------------------------
 (* the code *)
-\* signature.VerifyMultiSignature is handed this many signatures to verify for a bookkeeper list of length L
-SyncSigsVerified(L) == IF \E e \in SyncSigsTab : e \div 100 = L
-                       THEN (CHOOSE e \in SyncSigsTab : e \div 100 = L) % 100 ELSE L
-TwoThirds(n) == (2 * n + 2) \div 3         \* the least m with 3*m >= 2*n
+\* with p peers stored: the shortest bookkeeper list header_sync takes
+SyncMinList(p) == IF \E e \in SyncMinListTab : e \div 100 = p
+                  THEN (CHOOSE e \in SyncMinListTab : e \div 100 = p) % 100 ELSE SyncMinListLen
+\* ... and the number of signatures signature.VerifyMultiSignature is handed to verify for a list of length L
+SyncSigsVerified(p, L) == IF \E e \in SyncSigsTab : e \div 100 = p * 100 + L
+                          THEN (CHOOSE e \in SyncSigsTab : e \div 100 = p * 100 + L) % 100 ELSE L
 
 AllMembers(bk) == \A i \in DOMAIN bk : bk[i] \in Members
 
@@ -108,37 +123,37 @@ LedgerAccept(h) ==
 
 \* header_sync.VerifyHeader
 SyncAccept(h) ==
-    /\ Len(h.bk) >= SyncMinListLen                             \* len(Bookkeepers)*3 < len(PeerMap)*2
+    /\ Len(h.bk) >= SyncMinList(peers)                         \* len(Bookkeepers)*3 < len(PeerMap)*2
     /\ AllMembers(h.bk)
-    /\ VerifyMulti(h.bk, SyncSigsVerified(Len(h.bk)), h.sigs, MaskByPosition)
+    /\ VerifyMulti(h.bk, SyncSigsVerified(peers, Len(h.bk)), h.sigs, MaskByPosition)
 
 (* the properties *)
 ValidMemberSigners(h) == {k \in Members : \E i \in DOMAIN h.sigs : ValidFor(h.sigs[i], k)}
 \* C32: valid signatures of at least C+1 distinct members of the governing configuration
 LedgerOK(h) == Cardinality(ValidMemberSigners(h)) >= C + 1
 \* C33: valid signatures of distinct consensus peers number at least two thirds of the peer set
-SyncOK(h) == 3 * Cardinality(ValidMemberSigners(h)) >= 2 * N
+SyncOK(h) == 3 * Cardinality(ValidMemberSigners(h)) >= 2 * peers
 
 -----------------------------------------------------------------------------
-Init == hdr = NoHdr /\ phase = "idle" /\ accepted = FALSE /\ act = [name |-> "Init"]
+Init == hdr = NoHdr /\ phase = "idle" /\ accepted = FALSE /\ act = [name |-> "Init"] /\ peers \in PeerSetSizes
 
 Receive(h) ==
     /\ phase = "idle"
-    /\ hdr' = h /\ phase' = "received" /\ UNCHANGED accepted
+    /\ hdr' = h /\ phase' = "received" /\ UNCHANGED <<accepted, peers>>
     /\ act' = [name |-> "Receive"]
 
 AddHeader ==
     /\ phase = "received" /\ Which = "ledger"
-    /\ accepted' = LedgerAccept(hdr) /\ phase' = "checked" /\ UNCHANGED hdr
+    /\ accepted' = LedgerAccept(hdr) /\ phase' = "checked" /\ UNCHANGED <<hdr, peers>>
     /\ act' = [name |-> "AddHeader"]
 
 SyncBlockHeader ==
     /\ phase = "received" /\ Which = "sync"
-    /\ accepted' = SyncAccept(hdr) /\ phase' = "checked" /\ UNCHANGED hdr
+    /\ accepted' = SyncAccept(hdr) /\ phase' = "checked" /\ UNCHANGED <<hdr, peers>>
     /\ act' = [name |-> "SyncBlockHeader"]
 
 Next == \/ (phase = "idle" /\ \E nb \in 0..MaxBk : \E bk \in [1..nb -> 1..(N + 1)] :
-                                Canonical(bk) /\ Outsiders(bk) <= MaxOutsiders /\
+                                (\A i \in 1..nb : bk[i] <= peers + 1) /\ Canonical(bk) /\ Outsiders(bk) <= MaxOutsiders /\
                                 IF AlignOpts = 0
                                 THEN \E ns \in 0..MaxSigs : LenOK(nb, ns) /\ \E sg \in [1..ns -> SigSyms(bk)] :
                                          Receive([bk |-> bk, sigs |-> sg])
@@ -157,9 +172,9 @@ SyncSound   == (Checked /\ Which = "sync" /\ accepted) => SyncOK(hdr)
 LedgerSoundUpTo == (Checked /\ Which = "ledger" /\ accepted /\ ~LedgerOK(hdr)) =>
                        (LedgerSigsVerified < C + 1 \/ (MaskByPosition /\ HasDup(hdr.bk)))
 SyncSoundUpTo   == (Checked /\ Which = "sync" /\ accepted /\ ~SyncOK(hdr)) =>
-                       (3 * SyncMinListLen < 2 * N \/ 3 * SyncSigsVerified(Len(hdr.bk)) < 2 * N
+                       (3 * SyncMinList(peers) < 2 * peers \/ 3 * SyncSigsVerified(peers, Len(hdr.bk)) < 2 * peers
                            \/ (MaskByPosition /\ HasDup(hdr.bk)))
 \* quorum arithmetic: what is accepted has TwoThirds(N) listed signers; TwoThirds is the ceiling of 2N/3
-SyncQuorum      == (Checked /\ Which = "sync" /\ accepted) => Cardinality(Signers(hdr.bk, hdr.sigs)) >= TwoThirds(N)
+SyncQuorum      == (Checked /\ Which = "sync" /\ accepted) => Cardinality(Signers(hdr.bk, hdr.sigs)) >= TwoThirds(peers)
 ASSUME \A n \in 0..64 : 3 * TwoThirds(n) >= 2 * n /\ (TwoThirds(n) > 0 => 3 * (TwoThirds(n) - 1) < 2 * n)
 =============================================================================
